@@ -314,7 +314,17 @@ impl<'a> Outbound<'a> {
     }
 
     pub(super) fn next_step(&self) -> Option<OutboundStep> {
-        for in_progress in [true, false] {
+        self.step_with_priority(true)
+            .or_else(|| self.step_with_priority(false))
+    }
+
+    /// The packet that is already partly on the wire (or written and waiting for its flush).
+    pub(super) fn in_progress_step(&self) -> Option<OutboundStep> {
+        self.step_with_priority(true)
+    }
+
+    fn step_with_priority(&self, in_progress: bool) -> Option<OutboundStep> {
+        {
             for entry in &self.pending_control {
                 if entry.state.matches_priority(in_progress) {
                     return Some(OutboundStep::Control(ControlStep {
